@@ -32,7 +32,7 @@ def c09_jobs(tier):
     T = 900 if q else 3600
     js = [
         # monitor 2 exhaustively (all patterns <= 4x4, 5x5 strided in quick / complete in thorough) + parallel == serial + ILU backward error
-        job('sched-exhaustive', 'c09s', 'plain', threads=8, shards=4 if q else 16, timeout=T if q else 7200,
+        job('sched-exhaustive', 'c09s', 'plain', threads=4, shards=4 if q else 16, timeout=T if q else 7200,
             args=['--sub', 'sched_exhaustive', '--threads=4,5,8']),
         # monitor 2 on random inputs, monitor 3, monitor 5 on the sweeps
         job('sched-random-t4-16', 'c09s', 'plain', threads=16, shards=1 if q else 2, timeout=T,
